@@ -43,7 +43,14 @@ def instantiations(tier, seed):
     skels += [F.AL(0, F.a(), F.b(), id="A", sign=1), F.AL(0, F.a(), F.b(), sign=1), F.N("Not", F.AM(-1, F.c(), F.d())),
               F.N("Imply", F.a(), F.b()), F.N("Imply", F.N("All", F.a(), F.b()), F.c(), id="R"),
               F.N("XNor", F.N("Not", F.AM(0, F.a())), id="X"), F.N("XNor", F.N("All", F.a(), F.b(), id="B"), F.N("Any", F.c(), F.d(), id="C")),
-              F.N("All", F.N("XNor", F.a(), F.b()), F.N("Xor", F.c(), F.d()), id="A")]
+              F.N("All", F.N("XNor", F.a(), F.b()), F.N("Xor", F.c(), F.d()), id="A"),
+              # Imply whose condition is a generated-id proposition over exactly one leaf (not equivalent to "x >= 1")
+              F.N("Imply", F.N("Not", F.a()), F.b()), F.N("Imply", F.AL(2, F.i(), sign=None), F.b(), id="R"), F.N("Imply", F.AM(1, F.j()), F.c()),
+              F.N("All", F.N("Imply", F.AM(0, F.a()), F.b()), F.N("Imply", F.N("Any", F.c()), F.d()), id="A"),
+              F.N("Imply", F.AL(-1, F.j(), sign=-1), F.N("Not", F.b())),
+              # single-child connectives everywhere
+              F.N("All", F.N("Any", F.a()), F.N("All", F.b()), F.AM(0, F.c()), F.N("Xor", F.d(), F.a()), id="A"),
+              F.N("Not", F.N("Any", F.a())), F.N("XNor", F.a()), F.N("Any", F.N("Not", F.N("All", F.a())), F.b(), id="A")]
     for k, sk in enumerate(skels):
         names = F.ALT_NAMES[(k + seed) % len(F.ALT_NAMES)]
         m = F.rename(F.symbolize(sk), names)
